@@ -47,4 +47,14 @@ PROPS = {
     ),
 }
 
+# not registered in MANIFEST: everything at once, for testing the machinery against seeded changes
+DEV = {
+    "ALL": dict(
+        props_file="Props/C04.v",
+        families=[("core", NONE, 150), ("time", NONE, 100), ("fault", NONE, 150), ("hostile", NONE, 50)],
+        projection="full", monitors=["C01", "C02", "C03", "C04", "C05", "C06", "C07", "C08", "C09", "C10", "C11", "C13"],
+    ),
+}
+PROPS_ALL = dict(PROPS, **DEV)
+
 NOT_YET = {}
